@@ -6,6 +6,8 @@ narrowing store, call-site precondition, invariant initiation/preservation and p
 becomes a named obligation.  Calls to repo functions use the callee's contract only.
 """
 import ast
+import os
+import time
 import itertools
 from fractions import Fraction
 
@@ -267,6 +269,8 @@ class Exec:
         self.spec_mode = False
         self.obl_names = {}
         self.hint_facts = []
+        self.budget_s = int(ctx.options.get("gen_budget_s") or os.environ.get("HDCV_GEN_BUDGET_S", "600"))
+        self.deadline = time.time() + self.budget_s
 
     # ------------------------------------------------------------------ obligations
     def emit(self, st, kind, name, goal, where="", by=None, extra_hyps=()):
@@ -1072,6 +1076,8 @@ class Exec:
         return states
 
     def exec_stmt(self, s, st):
+        if time.time() > self.deadline:
+            raise Unsupported(f"generation budget of {self.budget_s}s exceeded at {self.where(s)} (HDCV_GEN_BUDGET_S)")
         m = getattr(self, "s_" + type(s).__name__, None)
         if m is None:
             raise Unsupported(f"statement {type(s).__name__} at {self.where(s)}")
